@@ -66,7 +66,9 @@ theorem noTag_skipF (rules : List Rule) (x : Expr) (h : NoTag x = true) : NoTag 
   · split
     · rename_i heq
       obtain ⟨strs, rfl⟩ := PestModel.Ref.populate_is_skip _ _ _ _ _ heq
-      rfl
+      split
+      · exact h
+      · rfl
     · exact h
   · exact h
 
